@@ -759,6 +759,12 @@ def scenario(chk, pr, xvc, idx, rng, forced=None):
             if rc == 0 and not fault:
                 extra = sorted(set(os.listdir(sb.path('.xvc'))) - {'store', 'ec', 'config.toml', 'config.local.toml'})
                 for e in extra: chk.count('xvc-dir-entry:' + e)
+                # `.xvc/tmp` (temporary entries of workspace copies, repair F29; ignored: C16_tmp_dir_ignored) is empty after a successful command
+                if 'tmp' in extra:
+                    left = os.listdir(sb.path('.xvc/tmp'))
+                    if left:
+                        tie.append((f'{desc}: entries left in .xvc/tmp after a successful command', sorted(left)[:5], []))
+                    extra.remove('tmp')
                 if extra and extra != [CACHE_PREFIX.get(algo[0])]:
                     tie.append((f'{desc}: entries of .xvc/ besides store, ec, config.toml, config.local.toml with cache.algorithm = {algo[0]} ({algo[1]})', extra, [CACHE_PREFIX.get(algo[0])]))
             if fails and not forced:
